@@ -875,6 +875,9 @@ var ConfigUpdates = []string{
 	// the smallest values (the validation of each group has to refuse them: prices are divisors, counts are bounds)
 	"onsOptions.perBlockFees:0", "onsOptions.baseDomainPrice:0", "stakingOptions.topValidatorCount:0", "rewardOptions.rewardInterval:0",
 	"evidenceOptions.blockVotesDiff:0", "feeOption.minFeeDecimal:-1",
+	// amounts around and far outside the accepted range of their option (500 000 .. 10 000 000 for the minimum self delegation)
+	"stakingOptions.minSelfDelegationAmount:60000000", "stakingOptions.minSelfDelegationAmount:15000000", "stakingOptions.minSelfDelegationAmount:10000000",
+	"stakingOptions.minSelfDelegationAmount:100", "stakingOptions.minSelfDelegationAmount:499950", "stakingOptions.minSelfDelegationAmount:500000",
 }
 
 func (g *Gen) ProposalCreate() txgen.Tx {
